@@ -7,6 +7,7 @@ set -u
 cd "$(dirname "$0")" || exit 2
 T="$1"; SECS="$2"; STATS="$3"; shift 3; IDS=("$@")
 export CARGO_NET_OFFLINE=true
+export VERIF_FUZZ_PROPS="${IDS[*]}"
 SEED="${VERIF_SEED:-0}"; [ "$SEED" = "0" ] && SEED=1
 WORK="$PWD/work/$T"; rm -rf "$WORK" "corpus/$T" "artifacts/$T"; mkdir -p "$WORK" "corpus/$T" "artifacts/$T"
 if ! cargo +nightly fuzz build "$T" >"$WORK/build.log" 2>&1; then echo "INCONCLUSIVE: fuzz build failed"; tail -n 20 "$WORK/build.log"; exit 2; fi
